@@ -55,8 +55,28 @@ def run(m: Model, r: Report, tier: str) -> None:
     appends = [n for n in ast.walk(W) if isinstance(n, ast.Call) and ast.unparse(n.func) == f"{FOUND}[{ctr}].append"]
     inner = [n for n in ast.walk(fors[0]) if isinstance(n, ast.For) and n is not fors[0]] if fors else []
     sessvar = ast.unparse(inner[0].target) if inner else "session"
-    r.check(len(appends) == 1 and ast.unparse(appends[0].args[0]).replace(" ", "") == f"{stackvar}+[{sessvar}]", "R1", f"{fn.qualname}#stack-growth",
-            "a found stack must be the current stack extended by exactly the probed session", loc=fn.loc)
+    ok_sg = None
+    if len(appends) == 1 and appends[0].args:
+        from sa import miniterp as _mt9
+        a0_ = appends[0].args[0]
+        try:
+            # starred list display `[*stack, session]` is the same list as `stack + [session]`
+            if isinstance(a0_, ast.List) and any(isinstance(e_, ast.Starred) for e_ in a0_.elts):
+                val_ = []
+                for e_ in a0_.elts:
+                    if isinstance(e_, ast.Starred):
+                        val_ += list(_mt9.eval_expr(e_.value, {stackvar: [1, 3], sessvar: 5}))
+                    else:
+                        val_.append(_mt9.eval_expr(e_, {stackvar: [1, 3], sessvar: 5}))
+            else:
+                val_ = _mt9.eval_expr(a0_, {stackvar: [1, 3], sessvar: 5})
+            ok_sg = list(val_) == [1, 3, 5] if isinstance(val_, (list, tuple)) else False
+        except AnalysisError:
+            ok_sg = None
+    elif len(appends) != 1:
+        ok_sg = False
+    r.check3(ok_sg, "R1", f"{fn.qualname}#stack-growth",
+             "a found stack must be the current stack extended by exactly the probed session", loc=fn.loc)
     reset_level = [n for n in W.body if isinstance(n, ast.Assign) and ast.unparse(n.targets[0]).replace(" ", "") == f"{FOUND}[{ctr}]" and ast.unparse(n.value) == "[]"]
     r.check(len(reset_level) == 1, "R1", f"{fn.qualname}#level-init", "each level must start with an empty list of stacks", loc=fn.loc)
     if len(inner) != 1:
